@@ -19,6 +19,8 @@ type Op struct {
 	K    int    `json:"k,omitempty"`
 	V    int    `json:"v,omitempty"`
 	N    int    `json:"n,omitempty"`
+	// Raw: K is a literal index (into the pool / the sorted present keys) even in a big key universe
+	Raw bool `json:"raw,omitempty"`
 }
 
 const (
@@ -42,7 +44,27 @@ const (
 	// OpPersistFail: MakeRoot while the N-th Store call of that flush fails (N>=1). If the flush makes
 	// fewer Store calls it simply succeeds and counts as an ordinary persist.
 	OpPersistFail = "persistfail"
+	// OpBulkIns inserts up to N pool keys K, K+stride, K+2*stride, ... (mod pool size; stride derived from V);
+	// OpBulkDel deletes up to N present keys picked the same way from the sorted present keys.
+	OpBulkIns = "bulkins"
+	OpBulkDel = "bulkdel"
 )
+
+// bulkStrides are primes; the one used is the first that does not divide the pool size.
+var bulkStrides = []int{1, 7, 13, 101, 37, 3, 211, 17}
+
+func bulkStride(v, n int) int {
+	if n <= 1 {
+		return 1
+	}
+	for i := 0; i < len(bulkStrides); i++ {
+		s := bulkStrides[mod(v+i, len(bulkStrides))]
+		if s == 1 || n%s != 0 {
+			return s
+		}
+	}
+	return 1
+}
 
 // PresentKey resolves a present-key selector; ok=false when the model is empty.
 func PresentKey(m Model, sel int) (int, bool) {
@@ -98,6 +120,8 @@ type GenOpts struct {
 	Formats    []string
 	LKPool     int // size of the LK pool (default 24..40)
 	NoCustomV1 bool
+	// BigOneIn n > 0: one configuration in n gets a dense key universe of 150-900 keys (Config.Big)
+	BigOneIn int
 }
 
 // GenConfig draws a configuration.
@@ -146,14 +170,54 @@ func GenConfig(t *rapid.T, tier string, o GenOpts) Config {
 	if o.NoCustomV1 && c.Format == ref.FormatV1 {
 		c.Marshaler = "json"
 	}
+	big := 0
+	if o.BigOneIn > 0 && rapid.IntRange(1, o.BigOneIn).Draw(t, "big") == 1 {
+		big = rapid.SampledFrom([]int{150, 300, 300, 600, 600, 900}).Draw(t, "bigsize")
+		c.BF = rapid.SampledFrom([]uint{3, 4, 4, 5, 16, 16, 16}).Draw(t, "bigbf")
+		if c.Val == VLong {
+			c.Val = VString
+		}
+		c.Big = big
+	}
 	if c.Key == KLK {
 		n := o.LKPool
 		if n == 0 {
 			n = rapid.IntRange(8, 40).Draw(t, "lkpool")
 		}
-		c.LKLayers = GenLayerTable(t, n)
+		if big > 0 {
+			n = big
+			c.LKLayers = GenBigLayerTable(t, n, c.BF)
+		} else {
+			c.LKLayers = GenLayerTable(t, n)
+		}
 	}
 	return c
+}
+
+// IsBig reports whether the configuration has a key universe of hundreds of keys.
+func (c Config) IsBig() bool { return c.Big > 0 }
+
+// GenBigLayerTable draws layers for a universe of hundreds of keys: geometric with the branch factor as its
+// base (what hashing gives), a smaller base (taller trees), or flat with a few towers.
+func GenBigLayerTable(t *rapid.T, n int, bf uint) []uint8 {
+	base := rapid.SampledFrom([]int{int(bf), int(bf), 3, 2}).Draw(t, "layerbase")
+	flat := rapid.IntRange(0, 5).Draw(t, "flat") == 0
+	out := make([]uint8, n)
+	bits := rapid.SliceOfN(rapid.Uint32(), n, n).Draw(t, "layerbits")
+	for i := range out {
+		x := bits[i]
+		if flat {
+			if x%97 == 0 {
+				out[i] = uint8(1 + x/97%5)
+			}
+			continue
+		}
+		for l := 0; l < 6 && x%uint32(base) == 0; l++ {
+			out[i]++
+			x /= uint32(base)
+		}
+	}
+	return out
 }
 
 // GenLayerTable draws a layer per key: mostly geometric with a generated
@@ -209,7 +273,7 @@ var DefaultWeights = OpWeights{
 func weightedKinds(w OpWeights) []string {
 	var out []string
 	for _, k := range []string{OpInsert, OpInsertNew, OpUpdate, OpInsertSame, OpDelete, OpDeleteTop, OpDelWrong, OpDelAbsent,
-		OpGet, OpSize, OpIter, OpIterStop, OpClone, OpPersist, OpReload, OpReloadJSON, OpDrain, OpPersistFail} {
+		OpGet, OpSize, OpIter, OpIterStop, OpClone, OpPersist, OpReload, OpReloadJSON, OpDrain, OpPersistFail, OpBulkIns, OpBulkDel} {
 		for i := 0; i < w[k]; i++ {
 			out = append(out, k)
 		}
@@ -244,6 +308,10 @@ func GenProgram(t *rapid.T, w OpWeights, maxOps, nslots int) []Op {
 			op.N = rapid.IntRange(0, 7).Draw(t, "root")
 		case OpPersistFail:
 			op.N = rapid.IntRange(1, 5).Draw(t, "failnth")
+		case OpBulkIns, OpBulkDel:
+			op.K = rapid.IntRange(0, 63).Draw(t, "k")
+			op.V = rapid.IntRange(0, 7).Draw(t, "stride")
+			op.N = rapid.IntRange(1, 400).Draw(t, "count")
 		}
 		return op
 	})
@@ -264,6 +332,35 @@ func GenFill(t *rapid.T, poolLen int, maxN int) []Op {
 		ops = append(ops, Op{Kind: OpInsert, K: ki, V: ki % 4})
 	}
 	return ops
+}
+
+// GenFillCfg is GenFill for configurations that may have a big key universe: those get one bulk insert of
+// a generated size (up to the whole universe) instead of a list of single inserts.
+func GenFillCfg(t *rapid.T, c Config, maxN int) []Op {
+	if !c.IsBig() {
+		return GenFill(t, len(c.Pool()), maxN)
+	}
+	n := len(c.Pool())
+	return []Op{{Kind: OpBulkIns, K: rapid.IntRange(0, 63).Draw(t, "fillstart"), V: rapid.IntRange(0, 7).Draw(t, "fillstride"),
+		N: rapid.IntRange(n/4, n).Draw(t, "fillcount")}}
+}
+
+// WithBulk returns the weights plus bulk inserts/deletes when the configuration has a big key universe.
+func WithBulk(w OpWeights, c Config) OpWeights {
+	if !c.IsBig() {
+		return w
+	}
+	total := 0
+	for _, v := range w {
+		total += v
+	}
+	out := OpWeights{}
+	for k, v := range w {
+		out[k] = v
+	}
+	out[OpBulkIns] = 1 + total/25
+	out[OpBulkDel] = 1 + total/25
+	return out
 }
 
 func indices(n int) []int {
